@@ -315,3 +315,28 @@ PROPS["C08"] = {
         ],
     },
 }
+
+PROPS["C20"] = {
+    "pkg": "c20", "level": "fault_enumeration",
+    "technique": "exhaustive enumeration of every (public start function, single invalid parameter) pair over a lattice of 44 invalid-parameter kinds, plus rapid-sampled pairs "
+                 "of invalid parameters of different kinds; oracle = handler construction returns an error without panicking, and whatever IS accepted is then run with honest "
+                 "peers given the same session-wide parameters and must complete with independently verified results (no crash, no stall)",
+    "level_text": "All 17 start functions (5 CMP + presign-full, 6 FROST, 5 Doerner) x all applicable invalid parameters (thresholds around 0/n/2^32, duplicated/missing/empty/foreign "
+                  "identifiers, bad signer sets, empty messages, nil/zero/incomplete key material, broken presignatures) are enumerated completely; the two-stage oracle avoids "
+                  "flagging parameters a protocol legitimately supports (e.g. empty messages in Doerner).",
+    "level_note": "Fixtures: dealt 3-party threshold-1 material, one real Doerner key, real presignatures. A peer that itself refuses the shared parameters simply does not take part.",
+    "rule": "case = (start function, set of invalid parameters, observed outcome: refused / accepted-and-valid / ...); every case is non-trivial (an invalid parameter is present); "
+            "distinct = distinct class keys; the single-parameter space is exhaustive",
+    "exhaustive_claim": False,
+    "assumptions": [],
+    "tiers": {
+        "quick": [
+            {"run": "^TestSingles$", "shards": 12, "timeout": 900},
+            {"run": "^TestPairs$", "checks": 2000, "shards": 4},
+        ],
+        "thorough": [
+            {"run": "^TestSingles$", "shards": 12, "timeout": 900},
+            {"run": "^TestPairs$", "checks": 50000, "shards": 8},
+        ],
+    },
+}
